@@ -50,5 +50,84 @@ Proof.
   pose proof refs_decided as H. rewrite E in H. exact H.
 Qed.
 
-Lemma refs_nonvacuous : 20 <= length attr_refs /\ 2 <= length hook_arities.
+Lemma refs_nonvacuous : 20 <= length attr_refs /\ 1 <= length hook_arities.
 Proof. vm_compute. split; repeat constructor. Qed.
+
+(* ---------------------------------------------------------------------------------------------------------------------------
+   round 4: the option sites.  pp_sites lists EVERY top-level function of Mechanics.py with a parameter pressureProjectionDegree
+   (the three factories and the helper), mode_sites every one with a parameter mode2D, call_arities every call of a top-level
+   function of the module / of an element-gradient hook variable.  A site is in order when every truth test that mentions the
+   degree is `is None` / `is not None` (a bare truthiness test silently treats degree 0 like None), the parameter is never
+   rebound, and volume_average_J_gradient_transformation is reached directly or by handing the parameter unchanged to a
+   function that reaches it; when both 2D modes are compared (or delegated to a function that compares both); when the number of
+   arguments of a call fits the callee's signature. *)
+
+Lemma pp_ok_spec f ln nt nn rb re di :
+  pp_ok (f, ln, nt, nn, rb, re, di) = true <-> nt = nn /\ rb = 0 /\ re = true.
+Proof.
+  unfold pp_ok. rewrite !andb_true_iff, !Nat.eqb_eq. tauto.
+Qed.
+
+Lemma mode_ok_spec f ln p a d :
+  mode_ok (f, ln, p, a, d) = true <-> d = true \/ (p = true /\ a = true).
+Proof.
+  unfold mode_ok. rewrite orb_true_iff, andb_true_iff. tauto.
+Qed.
+
+Lemma call_ok_spec f g ln n lo hi k :
+  call_ok (f, g, ln, n, lo, hi, k) = true <-> lo <= n /\ n <= hi /\ k = true.
+Proof.
+  unfold call_ok. rewrite !andb_true_iff, !Nat.leb_le. tauto.
+Qed.
+
+Definition sites_resolve : Prop :=
+  (forall s, In s pp_sites -> pp_ok s = true) /\ (forall s, In s mode_sites -> mode_ok s = true)
+  /\ (forall c, In c call_arities -> call_ok c = true).
+
+Definition sites_broken : Prop :=
+  (exists s, In s pp_sites /\ pp_ok s = false) \/ (exists s, In s mode_sites /\ mode_ok s = false)
+  \/ (exists c, In c call_arities /\ call_ok c = false).
+
+Lemma sites_decided : if sites_all_ok then sites_resolve else sites_broken.
+Proof.
+  unfold sites_resolve, sites_broken. destruct sites_all_ok eqn:E; unfold sites_all_ok in E.
+  - apply andb_prop in E. destruct E as [E E3]. apply andb_prop in E. destruct E as [E1 E2].
+    rewrite forallb_forall in E1, E2, E3. auto.
+  - apply andb_false_iff in E. destruct E as [E|E3]; [apply andb_false_iff in E; destruct E as [E1|E2]|].
+    + left. apply forallb_false_witness; assumption.
+    + right; left. apply forallb_false_witness; assumption.
+    + right; right. apply forallb_false_witness; assumption.
+Qed.
+
+Lemma sites_resolve_refuted_when_flag_false : sites_all_ok = false -> ~ sites_resolve.
+Proof.
+  unfold sites_all_ok, sites_resolve. intros H (H1 & H2 & H3).
+  assert (E1 : forallb pp_ok pp_sites = true) by (apply forallb_forall; assumption).
+  assert (E2 : forallb mode_ok mode_sites = true) by (apply forallb_forall; assumption).
+  assert (E3 : forallb call_ok call_arities = true) by (apply forallb_forall; assumption).
+  rewrite E1, E2, E3 in H. discriminate.
+Qed.
+
+(* on the current tree: every factory treats pressureProjectionDegree = 0 like any other degree and reaches the projection kernel *)
+Lemma sites_resolve_now : sites_resolve.
+Proof.
+  assert (E : sites_all_ok = true) by (vm_compute; reflexivity).
+  pose proof sites_decided as H. rewrite E in H. exact H.
+Qed.
+
+Definition is_factory (s : string * nat * nat * nat * nat * bool * bool) : bool :=
+  match s with (f, _, _, _, _, _, _) => String.prefix "create_" f end.
+
+(* the statement read off for the factories: each one only ever tests the degree against None, never rebinds it, reaches the kernel *)
+Lemma factories_pass_every_degree :
+  forall f ln nt nn rb re di, In (f, ln, nt, nn, rb, re, di) pp_sites -> nt = nn /\ rb = 0 /\ re = true.
+Proof.
+  intros f ln nt nn rb re di H. apply (pp_ok_spec f ln nt nn rb re di). apply (proj1 sites_resolve_now). exact H.
+Qed.
+
+Definition is_mode_factory (s : string * nat * bool * bool * bool) : bool :=
+  match s with (f, _, _, _, _) => String.prefix "create_" f end.
+
+Lemma sites_nonvacuous :
+  3 <= length (filter is_factory pp_sites) /\ 3 <= length (filter is_mode_factory mode_sites) /\ 20 <= length call_arities.
+Proof. vm_compute. repeat split; repeat constructor. Qed.
